@@ -43,7 +43,11 @@ ASSUMPTIONS = [
 SH_ALPHA = ["'", '"', '\\', ' ', '\t', '\n', '$', '`', '*', '?', '[', ']', '~', '!', '#', ';', '&', '|', '<', '>',
             '(', ')', '{', '}', '=', '-', 'a', 'b', 'Z', '0', '.', '/', ':', ',', '@', '%', '+', '_', '^', '\r',
             '\xe9', '日', '\U0001f600', '$HOME', '$(echo x)', '`echo y`', '\\\\', '\\"', "\\'", '*?', '~/', '$@',
-            '\x7f', '\x01', ' ', '\xa0', '--', '-n', '${IFS}']
+            '\x7f', '\x01', ' ', '\xa0', '--', '-n', '${IFS}',
+            # characters a legacy code page "best-fits" to quotes / backslashes / blanks: for the splitting rules
+            # themselves they are ordinary characters
+            '\uff02', '\u02ba', '\u030e', '\u201c', '\u201d', '\u2018', '\u2019', '\uff07', '\uff3c', '\u2216',
+            '\uff04', '\u2000', '\\\uff02', '\uff02"']
 
 
 def anchors():
@@ -362,6 +366,14 @@ def blob(c):
         while len(out) < n:
             out += r.choice(words)
         return bytes(out[:n])
+    if c['style'] == 'runs':
+        # runs of a megabyte of one byte, each followed by a few other bytes
+        out = bytearray()
+        k = 0
+        while len(out) < n:
+            out += bytes([(c['seed'] + k) % 256]) * (2 ** 20 - 3) + b'\x00\xff' + bytes([k % 256])
+            k += 1
+        return bytes(out[:n])
     return bytes([c['seed'] % 256]) * n
 
 
@@ -492,6 +504,15 @@ def run(ctx):
             run_case(ctx, {'kind': 'gzip', 'size': n, 'style': 'bigrun', 'seed': n % 1000,
                            'levels': [1] if not ctx.thorough else [1, 6]}, check, 'big-gzip', None, {})
             ctx.stats.peak('max_blob_bytes', n)
+        # tens of megabytes that compress a thousandfold (one repeated byte, or long runs with a few other bytes): the
+        # compressed form is tiny, so whatever bounds an implementation puts on input slices or output pieces is hit
+        dense = [(48 * 2 ** 20, 'const'), (33 * 2 ** 20 + 1, 'runs'), (64 * 2 ** 20, 'const'), (40 * 2 ** 20 + 7, 'runs'),
+                 (2 ** 25 + 1, 'const'), (100 * 2 ** 20, 'const'), (2 ** 26 - 1, 'runs'), (50 * 10 ** 6, 'const')]
+        mine = [z for i, z in enumerate(dense) if i % ctx.nshards == ctx.shard % len(dense)]
+        for n, style in (mine if ctx.thorough else mine[:1]):
+            run_case(ctx, {'kind': 'gzip', 'size': n, 'style': style, 'seed': n % 251,
+                           'levels': [6] if not ctx.thorough else [4, 9, 1]}, check, 'dense-gzip', None, {})
+            ctx.stats.count('highly_compressible_blobs_over_32MiB')
         explore_cases(ctx, gen, check, {'quick': 1200, 'thorough': 12000}[ctx.tier], 'enc', shrink)
     finally:
         if _glob_dir:
